@@ -9,18 +9,18 @@ cp -r /repo/target "$W/target" 2>/dev/null
 cd "$W" || exit 3
 export CARGO_NET_OFFLINE=true
 git apply "$P" || { echo "RESULT patch-does-not-apply"; cd /; git -C /repo worktree remove --force "$W"; exit 3; }
-out=$(cargo test --offline --lib 2>&1 | grep -E "^test result" | head -1)
+out=$(cargo test --offline --lib 2>&1 | grep -E "^test result:" | head -1)
 echo "suite with change: $out"
 case "$out" in *"55 passed; 0 failed"*) res="suite-ok";; *) res="suite-FAIL";; esac
 git apply "$D" || { echo "RESULT demo-does-not-apply"; cd /; git -C /repo worktree remove --force "$W"; exit 3; }
 T=$(grep -E '^\+\+\+ b/tests/' "$D" | sed 's#+++ b/tests/##; s#\.rs##' | head -1)
 if [ -n "$T" ]; then CMD="cargo test --offline --test $T"; else CMD="cargo test --offline --lib $FILTER"; fi
 echo "demo command: $CMD"
-o2=$($CMD 2>&1 | grep -E "^test result" | head -1)
+o2=$($CMD 2>&1 | grep -E "^test result:" | head -1)
 echo "demo with change: $o2"
 case "$o2" in *FAILED*) res="$res demo-fails-with-change";; *) res="$res demo-DOES-NOT-FAIL";; esac
 git apply -R "$P"
-o3=$($CMD 2>&1 | grep -E "^test result" | head -1)
+o3=$($CMD 2>&1 | grep -E "^test result:" | head -1)
 echo "demo without change: $o3"
 case "$o3" in *"test result: ok"*) res="$res demo-passes-without-change";; *) res="$res demo-DOES-NOT-PASS-without";; esac
 echo "RESULT $res"
